@@ -72,3 +72,47 @@ fn c12_mask_shift_entries_lie_inside_the_slot() {
     }
     println!("CASES c12_mask_shift {cases}");
 }
+
+/// fields of every width and position, masked out of calldata or of the slot itself and stored plainly
+#[test]
+fn c12_masked_fields_of_odd_width_lie_inside_the_slot() {
+    use crate::c08::analyze_layout;
+    let mut cases = 0;
+    for (pos, len) in [(243u32, 13u32), (246, 10), (251, 5), (255, 1), (240, 16), (100, 13), (3, 250), (1, 255), (17, 7), (249, 7), (232, 24), (236, 20)] {
+        let mask = ((U256::ONE << len) - U256::ONE) << pos;
+        for src in [vec![0x60u8, 0x00, 0x35], vec![0x60, 0x01, 0x54], vec![0x33]] {
+            // PUSH32 mask ; <src> ; AND ; PUSH1 1 ; SSTORE
+            let mut code = vec![0x7f];
+            code.extend(mask.to_be_bytes());
+            code.extend(&src);
+            code.extend([0x16, 0x60, 0x01, 0x55, 0x00]);
+            if let Some(slots) = analyze_layout(&code) {
+                for (idx, off, width) in slots {
+                    if off >= 256 || width.map_or(false, |w| off + w > 256) {
+                        witness("C12", "layout.entry_inside_slot", format!("sstore(1, src & (mask at bit {pos} len {len})): {code:02x?}"), format!("entry slot {idx} offset {off} width {width:?}"), "starts and ends inside the 256-bit slot".into());
+                    }
+                }
+            }
+            cases += 1;
+        }
+    }
+    // two adjacent fields filling the word: [0, split) | [split, 256), each masked out of calldata, OR-ed and stored
+    for split in [243u32, 246, 251, 255, 240, 13, 100, 129, 7, 1] {
+        let lo = (U256::ONE << split) - U256::ONE;
+        let hi = !lo;
+        let mut code = vec![0x7f];
+        code.extend(lo.to_be_bytes());
+        code.extend([0x60, 0x00, 0x35, 0x16, 0x7f]);
+        code.extend(hi.to_be_bytes());
+        code.extend([0x60, 0x20, 0x35, 0x16, 0x17, 0x60, 0x00, 0x55, 0x00]);
+        if let Some(slots) = analyze_layout(&code) {
+            for (idx, off, width) in slots {
+                if off >= 256 || width.map_or(false, |w| off + w > 256) {
+                    witness("C12", "layout.entry_inside_slot", format!("sstore(0, cd(0) & [0,{split}) | cd(32) & [{split},256)): {code:02x?}"), format!("entry slot {idx} offset {off} width {width:?}"), "starts and ends inside the 256-bit slot".into());
+                }
+            }
+        }
+        cases += 1;
+    }
+    println!("CASES c12_odd_fields {cases}");
+}
